@@ -943,7 +943,9 @@ pub struct Scenario {
     /// 0 whatever the file system put there (just now); 1 last touched 2400 s ago (a daemon that had been up
     /// for 40 minutes: stores through the mapping do not move st_mtime); 2 January 2001 (before this machine
     /// booted: the wall clock was stepped since); 3 one hour in the future (the wall clock was stepped back);
-    /// 4 / 5: not time stamps but permission bits - mode 0664 / 0666 (a daemon started under umask 002 / 000)
+    /// 4 / 5: not time stamps but permission bits - mode 0664 / 0666 (a daemon started under umask 002 / 000);
+    /// 6 / 7: not time stamps but the owner - the file belongs to uid and gid 65534, mode 0644 / 0666 (the previous
+    /// daemon ran as a service user and this one as root, or the unit's User= changed; only when the harness is root)
     pub file_times: u8,
 }
 
@@ -953,6 +955,14 @@ pub fn stamp_file(path: &Path, mode: u8) {
     if mode == 4 || mode == 5 {
         use std::os::unix::fs::PermissionsExt;
         let _ = std::fs::set_permissions(path, std::fs::Permissions::from_mode(if mode == 4 { 0o664 } else { 0o666 }));
+        return;
+    }
+    if mode == 6 || mode == 7 {
+        use std::os::unix::fs::PermissionsExt;
+        if crate::common::privdrop::is_root() && path.exists() {
+            let _ = std::os::unix::fs::chown(path, Some(crate::common::privdrop::NOBODY), Some(crate::common::privdrop::NOBODY));
+            let _ = std::fs::set_permissions(path, std::fs::Permissions::from_mode(if mode == 6 { 0o644 } else { 0o666 }));
+        }
         return;
     }
     let secs: i64 = match mode {
